@@ -35,6 +35,21 @@ CHECKS = {
              "generated near-miss and random byte strings must parse to nothing.",
         note="Trusts __PRETTY_FUNCTION__ spelling of enumerators and the atom table.",
         ref="3/C08"),
+    "C11": dict(
+        technique="runtime monitor: atan2 reference in binary128 over all compile-time-detected angle forms, workload weighted to parallel/antiparallel pairs",
+        text="All 50 angle forms (8 kernels and every quantity-level constructor and member found by detection idioms) are run in three "
+             "numeric types on random, exactly and nearly parallel/antiparallel, axis-aligned and perpendicular pairs; each result must be "
+             "a number in [0, pi], symmetric, invariant under power-of-two rescaling bit for bit, and within 8*sqrt(eps) of atan2(|axb|, a.b).",
+        note="Trusts libquadmath atan2q; lengths restricted to the non-overflowing range.",
+        ref="3/C11"),
+    "C15": dict(
+        technique="runtime monitor: exact-decimal classification oracle on bit patterns (all 2^32 floats in the thorough tier), bit-exact parse-back, offline checker of recorded serialisation events (python json)",
+        text="PhQ::Print is observed on boundary neighbourhoods, rounding slivers and stratified random bit patterns of all three types "
+             "(thorough: every float), judged by digit count, exact decimal interval and bit-exact ParseNumber round trip; every quantity "
+             "type x unit x {Print, JSON, XML, YAML, stream} is recorded and an offline checker verifies component order, abbreviation, "
+             "stream == print and JSON validity.",
+        note="Trusts glibc strto*/printf rounding, python's json module; finite normal values only.",
+        ref="3/C15"),
 }
 
 PENDING = {}
